@@ -149,6 +149,24 @@ class Machine:
         return outcome
 
 
+def _finish(m):
+    """End-of-run checks under the same safety net as a step."""
+    try:
+        m.finish()
+    except Exception as e:  # noqa: BLE001
+        v = e if isinstance(e, Violation) else m._library_exception(e, {"op": "finish"})
+        if v is None:
+            raise
+        if v.signature in m.known:
+            m.known_hits.append(v.signature)
+            m.log(["known", v.signature])
+            return
+        m.log(["violation", v.signature])
+        if v is e:
+            raise
+        raise v from e
+
+
 def get_machine(prop):
     if prop == "C01":
         from .props.c01 import C01Machine as M
@@ -179,7 +197,7 @@ def run_one(prop, run_seed, tier, known=frozenset(), keep_trace=True):
                     break
                 ops.append(op)
                 m.step(op)
-            m.finish()
+            _finish(m)
             m.log(["finish"])
         except Violation as v:
             violation = v
@@ -198,7 +216,7 @@ def replay_trace(trace, known=frozenset()):
         try:
             for op in trace["ops"]:
                 m.step(op)
-            m.finish()
+            _finish(m)
             m.log(["finish"])
         except Violation as v:
             violation = v
